@@ -103,6 +103,31 @@ def c12_cases(tier):
     rp('name-value', ['#[repr = "u8"]'], owner='any')
     rp('twin-u8', ['#[repr(u8)]'], 'accept')
     rp('twin-isize', ['#[repr(isize)]'], 'accept')
+    # the domain checks do not depend on what is requested: every derive-owned reject case again without any item-level
+    # enum_tools attribute and with an empty one (and the same for two twins)
+    base = list(out)
+    for c in base:
+        if not any(l.startswith('#[enum_tools(') for l in c['body']):
+            continue
+        if c['expect'] == 'reject' and c['owner'] != 'derive':
+            continue
+        if c['expect'] == 'accept' and c['class'] not in ('fields/twin', 'item/twin', 'repr/twin-u8', 'expr/binary/twin'):
+            continue
+        for tag, repl in (('no-attr', None), ('empty-attr', '#[enum_tools()]')):
+            body = []
+            for l in c['body']:
+                if l.startswith('#[enum_tools('):
+                    if repl is not None and repl not in body:
+                        body.append(repl)
+                else:
+                    body.append(l)
+            n[0] += 1
+            out.append(case('c12_%03d' % n[0], 'C12', c['class'] + '/' + tag, body, c['expect'], c['owner'], c['note']))
+    # the size limit on every repr that can hold 65 535 variants
+    for r, first in (('u16', 'V0'), ('i16', 'V0 = -32768'), ('u64', 'V0'), ('isize', 'V0 = -5'), ('i128', 'V0')):
+        vs = ', '.join([first] + ['V%d' % i for i in range(1, 65535)])
+        n[0] += 1
+        out.append(case('c12_%03d' % n[0], 'C12', 'size/65535/%s' % r, ['#[derive(Clone, Copy, EnumTools)]', '#[enum_tools(into, MIN, MAX)]', '#[repr(%s)]' % r, 'pub enum E { %s }' % vs], 'reject'))
     return out
 
 def big_enum_case(n, prop, expect):
@@ -277,6 +302,12 @@ def c14_cases(tier):
     fams.append(('emptyname3', [('A', 1, ''), ('B', 2, 'a'), ('C', 3, 'b')]))   # the empty name sorts first and is a name like any other
     fams.append(('emptyname1', [('A', 1, '')]))
     fams.append(('emptyname2dup', [('A', 1, ''), ('B', 2, '')]))
+    fams.append(('rawnames3', [('A', 1, 'a'), ('B', 2, 'r#type'), ('C', 3, 's')]))         # 'r#type' is a name like any other: 'a' < 'r#type' < 's'
+    fams.append(('rawidents3', [('a', 1, None), ('r#type', 2, None), ('s', 3, None)]))
+    fams.append(('rawidents3b', [('r#as', 1, None), ('d', 2, None), ('Zeta', 3, None)]))
+    fams.append(('maxvalue3', [('A', -1, None), ('B', 9223372036854775807, None), ('C', 3, None)]))
+    fams.append(('maxfirst2', [('A', 9223372036854775807, None), ('B', 0, None)]))
+    fams.append(('nearmax3', [('A', 9223372036854775806, None), ('B', 9223372036854775807, None), ('C', 9223372036854775805, None)]))
     fams.append(('nonascii3', [('A', 1, 'z'), ('B', 2, '\u00e4'), ('C', 3, 'Z')]))     # byte-wise UTF-8 order: 'Z' < 'z' < 'ä'
     for fam, vs in fams:
         for perm in itertools.permutations(range(len(vs))):
